@@ -32,7 +32,10 @@ DigitsEnd(s, i) == IF IsDigit(At(s, i)) THEN DigitsEnd(s, i + 1) ELSE i
 RECURSIVE DigitsVal(_, _, _, _)
 DigitsVal(s, i, j, acc) == IF i >= j THEN acc ELSE DigitsVal(s, i + 1, j, acc * 10 + (s[i] - 48))
 
-Pow10(k) == CASE k = 0 -> 1 [] k = 1 -> 10 [] k = 2 -> 100 [] k = 3 -> 1000
+Pow10(k) == CASE k = 0 -> 1 [] k = 1 -> 10 [] k = 2 -> 100 [] k = 3 -> 1000 [] k = 4 -> 10000 [] k = 5 -> 100000
+RECURSIVE LastNonZero(_, _, _), TrailingZeros(_)
+LastNonZero(s, lo, i) == IF i <= lo \/ s[i] # 48 THEN i ELSE LastNonZero(s, lo, i - 1)     \* index of the last digit that is not 0 (lo if none)
+TrailingZeros(n) == IF n % 10 # 0 THEN 0 ELSE 1 + TrailingZeros(n \div 10)               \* n > 0
 
 (* number = [ "-" ] int [ frac ] [ exp ]   starting at i *)
 ParseNumber(s, i) ==
@@ -51,6 +54,22 @@ ParseNumber(s, i) ==
          eneg == At(s, f2 + 1) = 45
      IN IF hasFrac /\ f2 = f1 THEN JFail(f1)                    \* "1." : digit required
         ELSE IF hasExp /\ e2 = e1 THEN JFail(e1)                \* "1e" : digit required
+        ELSE IF ~hasFrac /\ ~hasExp /\ (i2 - i1) >= 11 /\ (i2 - i1) <= 19
+             THEN \* an integer of 11..19 digits: inside the model when it is at most 9 significant digits followed by zeros
+                  LET nz == LastNonZero(s, i1, i2 - 1) IN
+                  IF nz - i1 + 1 > 9 THEN JOkD(e2, JInt(0), FALSE)
+                  ELSE LET m == DigitsVal(s, i1, nz + 1, 0) IN JOk(e2, IF neg THEN JBig(-m, i2 - 1 - nz) ELSE JBig(m, i2 - 1 - nz))
+        ELSE IF hasExp /\ ~eneg /\ (e2 - e1) <= 2 /\ (i2 - i1) <= 3 /\ (f2 - f1) <= 2 /\ DigitsVal(s, e1, e2, 0) >= 4 /\ DigitsVal(s, e1, e2, 0) <= 22
+             THEN \* mantissa of at most 5 digits, exponent 4..22 (the exactly-converted range of the JSON parser, C08)
+                  LET ip == DigitsVal(s, i1, i2, 0)
+                      fd == IF hasFrac THEN f2 - f1 ELSE 0
+                      fp == IF hasFrac THEN DigitsVal(s, f1, f2, 0) ELSE 0
+                      num == ip * Pow10(fd) + fp
+                      ev == DigitsVal(s, e1, e2, 0) - fd
+                  IN IF num = 0 THEN JOk(e2, JInt(0))
+                     ELSE LET z == TrailingZeros(num)  m == num \div Pow10(z)  E == ev + z IN
+                          IF Digits(m) + E >= 11 THEN JOk(e2, IF neg THEN JBig(-m, E) ELSE JBig(m, E))
+                          ELSE JOkD(e2, JInt(0), FALSE)
         ELSE IF (i2 - i1) > 9 \/ (f2 - f1) > 3 \/ (i2 - i1) + (f2 - f1) > 9 \/ (hasExp /\ ((e2 - e1) > 1 \/ (i2 - i1) > 3 \/ (f2 - f1) > 2 \/ s[e1] - 48 > 3))
              THEN JOkD(e2, JInt(0), FALSE)                      \* valid JSON, value outside the modelled domain
         ELSE LET ip == DigitsVal(s, i1, i2, 0)
